@@ -77,10 +77,25 @@ def _unwrap(s, tag):
 
 def parse(q):
     """decode one correlation query into a record"""
-    m = re.fullmatch(r"SEARCH⟦(.*)⟧TYPING⟦(.*)⟧AGG⟦(.*)⟧COND⟦(.*)⟧", q, re.S)
-    if not m:
-        raise CorrParseError("frame does not match: " + q[:80])
-    search, typing, agg, cond = m.groups()
+    parts, pos = [], 0
+    for tag in ("SEARCH", "TYPING", "AGG", "COND"):
+        if not q.startswith(tag + L, pos):
+            raise CorrParseError(f"frame: {tag} expected at {pos}: " + q[pos : pos + 60])
+        i = pos + len(tag) + 1
+        depth = 1
+        while i < len(q) and depth:
+            if q[i] == L:
+                depth += 1
+            elif q[i] == Rr:
+                depth -= 1
+            i += 1
+        if depth:
+            raise CorrParseError("frame: unbalanced brackets")
+        parts.append(q[pos + len(tag) + 1 : i - 1])
+        pos = i
+    if pos != len(q):
+        raise CorrParseError("frame: trailing text " + q[pos : pos + 40])
+    search, typing, agg, cond = parts
     rec = {}
     subs = []
     if search.startswith("S1" + L):
